@@ -139,7 +139,10 @@ func genTTHParams(r *rand.Rand) tthParams {
 		p.Proto = []byte{0, 3, 4, 0x10, 0x11}[r.Intn(5)]
 	}
 	str := func() string {
-		switch r.Intn(14) {
+		switch r.Intn(16) {
+		case 14, 15: // the keys the framework itself uses (written out here, not taken from the library) and near misses
+			k := []string{"isn", "rip", "tc", "ti", "pcs", "pce", "pss", "prs", "pre", "crrst", "K_ProcessAtTime", "K_", "pr", "prS", "pree", "is", "isn "}
+			return k[r.Intn(len(k))]
 		case 12: // keys that resemble the ACL-token key
 			return []string{"rpc_transit_gdpr-token", "RPC_TRANSIT_GDPR-TOKEN", "RPC_TRANSIT_gdpr-toke", "RPC_TRANSIT_gdpr-token2", "Rpc_Transit_Gdpr-Token", "gdpr-token"}[r.Intn(6)]
 		case 13:
